@@ -49,18 +49,18 @@ end
 /-- `_cnot_count_estimate` of qclib/unitary.py -/
 def cnot_count_estimate (gate_rows : Int) (decomposition : String) (iso : Int) (apply_a2 : Bool) : Int :=
   let n_qubits : Int := (pyLog2Floor gate_rows)
-  if _h1 : (iso ≠ 0) then
-    let last_2q_gate_cnot : Int := (if (apply_a2 = true) then 1 else 0)
-    ((cnot_count_iso n_qubits iso apply_a2) + last_2q_gate_cnot)
+  if _h1 : (n_qubits = 1) then
+    0
   else
-    if _h2 : (n_qubits = 1) then
-      0
+    if _h2 : (n_qubits = 2) then
+      3
     else
-      if _h3 : (n_qubits = 2) then
-        3
+      if _h3 : (decomposition = "csd") then
+        (((pyPow 4 n_qubits) - (2 * (pyPow 2 n_qubits))) - 1)
       else
-        if _h4 : (decomposition = "csd") then
-          (((pyPow 4 n_qubits) - (2 * (pyPow 2 n_qubits))) - 1)
+        if _h4 : (iso ≠ 0) then
+          let last_2q_gate_cnot : Int := (if (apply_a2 = true) then 1 else 0)
+          ((cnot_count_iso n_qubits iso apply_a2) + last_2q_gate_cnot)
         else
           if _h5 : (apply_a2 = true) then
             (pyCeilDiv (((23 * (pyPow 2 (2 * n_qubits))) - (24 * (3 * (pyPow 2 n_qubits)))) + 64) 48)
